@@ -573,6 +573,21 @@ fn enumerated(seed: u64, tier: Tier) -> Vec<Case> {
             v.push(mk(Fault::Kill { syscall: "write".into(), k }));
         }
     }
+    // a single row longer than the 4 MB buffer (an output script of 2.2 MB is a 4.4 MB line of tx_out.csv): such a write
+    // bypasses the buffer, so its failure or shortness must be noticed at once
+    {
+        let mut scripts: Vec<Vec<u8>> = (0..4usize).map(|i| vec![0x51 + i as u8]).collect();
+        scripts[2] = { let mut sc = vec![0x6a]; sc.extend((0..2_200_000u32).map(|k| (k % 233) as u8)); sc };
+        let wide = vpmodel::spec::chain_from_scripts(vpmodel::chain::Coin::Bitcoin, &scripts, &[700, 9], 1, 2, 0, 1_400_000_000);
+        let mk = |fault: Fault| Case { chain: wide.clone(), nfiles: 1, cb: Callback::CsvDump, start: None, end: None, fault, stale_tmp: false };
+        for (num, delta) in [(1u32, 0i32), (4, 0), (7, 0), (8, -1)] {
+            v.push(mk(Fault::Fsize { num, den: 8, delta }));
+        }
+        for k in 1..=3 {
+            v.push(mk(Fault::Enospc { k, file: Some(3), errno: (k % 6) as u8 }));
+        }
+        v.push(mk(Fault::None));
+    }
     // the same for the two table-producing callbacks: 125 000 funded addresses make the balances table (5 MB) and
     // the unspent table (15 MB) larger than the 4 MB buffer, so the table is written in several large writes
     let scripts: Vec<Vec<u8>> = (0..125_000usize).map(|i| { let mut s = vec![0x76, 0xa9, 0x14]; s.extend([(i & 0xff) as u8, (i >> 8) as u8, (i >> 16) as u8, 0x5a].iter().cycle().take(20)); s.extend([0x88, 0xac]); s }).collect();
